@@ -638,14 +638,14 @@ fn arb_scenario() -> impl Strategy<Value = Scenario> {
 pub fn run(ctx: &Ctx) {
     ctx.rule("scenarios of 1..8 reference clients (scripts over send text/binary in 1..3 fragments, bursts of 2..5 messages in one write, a fragmented message with a Pong or Ping between its fragments, ping, short sleeps; ending with Close, vanishing abruptly with the heartbeat on, or staying silent to the heartbeat pings and sending Close just as the pong timeout elapses) against AsyncWebsocketApp linked to a real App, handler pools of 1..8 threads, poll interval none..10 ms, an external AsyncSender issuing unicasts and broadcasts at generated moments, ending with shutdown; payloads carry (client#, seq#). Invariants over the handler event log and each client's received frames: connect and disconnect exactly once per client, each client message dispatched exactly once (multiset), with a 1-thread pool connect before the first message, messages in send order and nothing after disconnect; every echo unicast reaches only and exactly its client; external messages at most once, unicasts only at their addressee, required ones delivered; run() returns after the shutdown signal. Non-trivial: >=2 clients with a broadcast, an abrupt disconnect, or several messages in one write; distinct by scenario");
     ctx.assume("interleavings come from the OS scheduler plus generated delays (no controlled scheduler); ordering is demanded only with a 1-thread handler pool; clients answer heartbeat pings; heartbeat 100 ms / timeout 1.5 s");
-    let cases = ctx.tier.pick(192u32, 3000u32);
+    let cases = ctx.share(ctx.tier.pick(192u32, 3000u32)).max(16);
     let nshards = 16;
     crate::engine::shards(nshards, |i| {
         let ip = format!("127.0.12.{}", 1 + i);
         pt::run(
             ctx,
             "scenario",
-            pt::Opts::new(cases / nshards as u32).salt(1200 + i as u64).shrink_iters(16),
+            pt::Opts::new(cases / nshards as u32).salt(ctx.salt_of(1200 + i as u64)).shrink_iters(16),
             arb_scenario(),
             |s| serde_json::to_value(s).unwrap(),
             |s| {
